@@ -31,7 +31,11 @@ WORK = dict(IntegratedGradients=5, SmoothGrad0=4, SquareGrad0=4, VarGrad0=4, Occ
 def gen_case(rng, what):
     n = rng.randint(1, 4)
     w = WORK.get(what, 1)
+    if what in METRICS:
+        n = rng.choice([3, 5, 7, 4])          # the workload of a metric is its N samples: remainder batches need N > batch size
     cands = [1, 2, 3, max(1, w - 1), w, w + 1, n * w + 1, None, rng.randint(1, n * w + 2)]
+    if what in METRICS:
+        cands = [1, 2, 2, 3, n - 1, n, n + 1, None]
     bss = []
     for b in rng.sample(cands, len(cands)):
         if b not in bss:
@@ -47,7 +51,7 @@ def gen_case(rng, what):
 
 def generate(rng, tier):
     reps = 1 if tier == "quick" else 8
-    return [gen_case(rng, w) for _ in range(reps) for w in DETERMINISTIC + SAMPLING + METRICS]
+    return [gen_case(rng, w) for _ in range(reps) for w in DETERMINISTIC + SAMPLING + METRICS + METRICS]
 
 
 def nontrivial(case):
